@@ -115,6 +115,21 @@ def query1(ctx) -> List[Ob]:
                         why = "declared back edges count as predecessors (raw _jump_targets): a loop header that is the entry of a region is no longer its head"
                 elif rem:
                     why = "a jump target is removed from the candidates only under a condition / the scan can stop early: a block with a predecessor can remain a candidate"
+    if not good and not why:
+        # the same in one call per block: <candidates>.difference_update(<block>.jump_targets)
+        for outer in _loops(m.node):
+            if A.unparse(outer.iter) not in ("self.graph.keys()", "self.graph", "self.graph.values()", "self.graph.items()"):
+                continue
+            for c in A.walk_no_nested(outer):
+                if isinstance(c, ast.Call) and isinstance(c.func, ast.Attribute) and A.unparse(c.func.value) == cands and c.func.attr == "difference_update" and len(c.args) == 1 and isinstance(c.args[0], ast.Attribute):
+                    conds = [a for a in A.ancestors(c) if isinstance(a, ast.If) and any(x is outer for x in A.ancestors(a))]
+                    stops = [b for b in A.walk_no_nested(outer) if isinstance(b, (ast.Break, ast.Continue, ast.Return))]
+                    if c.args[0].attr == "jump_targets" and not conds and not stops:
+                        good = True
+                    elif c.args[0].attr == "_jump_targets":
+                        why = "declared back edges count as predecessors (raw _jump_targets): a loop header that is the entry of a region is no longer its head"
+                    else:
+                        why = "a jump target is removed from the candidates only under a condition / the scan can stop early: a block with a predecessor can remain a candidate"
     if good:
         out.append(ok("QUERY-1", m.qualname, key, where, "unconditional discard of each element of block.jump_targets for every block"))
     elif why:
@@ -859,6 +874,8 @@ def query6(ctx) -> List[Ob]:
             conds = {A.unparse(x) for x in wt.values} if isinstance(wt, ast.BoolOp) and isinstance(wt.op, ast.And) else set()
             popk = [s for s in ws[0].body if isinstance(s, ast.Assign) and A.unparse(s.value) == f"{SQ}.pop()"]
             addk = popk and any(isinstance(s, ast.Expr) and A.unparse(s.value) == f"{C}.add({A.unparse(popk[0].targets[0])})" for s in ws[0].body)
+            # or in one statement: C.add(SQ.pop())
+            addk = addk or (len(ws[0].body) == 1 and isinstance(ws[0].body[0], ast.Expr) and A.unparse(ws[0].body[0].value) == f"{C}.add({SQ}.pop())")
             cmp_ok = bool({f"{PRE}[{SQ}[-1]] > {PRE}[{v}]", f"{PRE}[{SQ}[-1]] >= {PRE}[{v}]", f"{PRE}[{v}] < {PRE}[{SQ}[-1]]", f"{PRE}[{v}] <= {PRE}[{SQ}[-1]]"} & conds)
             order = r.body.index(comp[0]) < r.body.index(ws[0]) < r.body.index(upd[0]) < r.body.index(ys[0])
             if SQ in conds and cmp_ok and addk and order and A.unparse(upd[0].value.args[0]) == C and A.unparse(ys[0].value.value) == C and SQ != Q:
